@@ -114,6 +114,47 @@ package memstore
 //@   ensures [deleted] old(cst(m, content(key))) != 0 ==> r0 == nil && cst(m, content(key)) == 1
 //@   ensures [other-keys-untouched] forall k Bytes :: k != old(content(key)) ==> cst(m, k) == old(cst(m, k)) && (old(cst(m, k)) != 0 ==> cvl(m, k) === old(cvl(m, k)))
 
+// The exported operations as the interface contracts above state them (MemStoreI.* are what callers rely on; these are the
+// same statements over the concrete view, verified).
+//@ func (*MemStore).Upsert
+//@   props C14 C17 C01
+//@   requires [ri] memRI(m)
+//@   requires [cells-preexist] forall k Bytes :: slHas(m.skipListMap, k) ==> !fresh(vcell(m, k))
+//@   ensures [ri-kept] memRI(m)
+//@   ensures [nil-key] isnil(key) ==> r0 == KeyNil
+//@   ensures [nil-value] !isnil(key) && isnil(value) ==> r0 == ValueNil
+//@   ensures [stored] !isnil(key) && !isnil(value) ==> r0 == nil && cst(m, content(key)) == 2 && cvl(m, content(key)) === value
+//@   ensures [error-changes-nothing] r0 != nil ==> forall k Bytes :: cst(m, k) == old(cst(m, k)) && (old(cst(m, k)) != 0 ==> cvl(m, k) === old(cvl(m, k)))
+//@   ensures [other-keys-untouched] forall k Bytes :: k != old(content(key)) ==> cst(m, k) == old(cst(m, k)) && (old(cst(m, k)) != 0 ==> cvl(m, k) === old(cvl(m, k)))
+
+//@ func (*MemStore).Add
+//@   props C14 C17 C01
+//@   requires [ri] memRI(m)
+//@   requires [cells-preexist] forall k Bytes :: slHas(m.skipListMap, k) ==> !fresh(vcell(m, k))
+//@   ensures [ri-kept] memRI(m)
+//@   ensures [nil-key] isnil(key) ==> r0 == KeyNil
+//@   ensures [nil-value] !isnil(key) && isnil(value) ==> r0 == ValueNil
+//@   ensures [exists] !isnil(key) && !isnil(value) && old(cst(m, content(key))) == 2 ==> r0 == KeyAlreadyExists
+//@   ensures [stored] !isnil(key) && !isnil(value) && old(cst(m, content(key))) != 2 ==> r0 == nil && cst(m, content(key)) == 2 && cvl(m, content(key)) === value
+//@   ensures [error-changes-nothing] r0 != nil ==> forall k Bytes :: cst(m, k) == old(cst(m, k)) && (old(cst(m, k)) != 0 ==> cvl(m, k) === old(cvl(m, k)))
+//@   ensures [other-keys-untouched] forall k Bytes :: k != old(content(key)) ==> cst(m, k) == old(cst(m, k)) && (old(cst(m, k)) != 0 ==> cvl(m, k) === old(cvl(m, k)))
+
+//@ func (*MemStore).Delete
+//@   props C14 C17 C01
+//@   requires [ri] memRI(m)
+//@   ensures [ri-kept] memRI(m)
+//@   ensures [absent] old(cst(m, content(key))) == 0 ==> r0 == KeyNotFound && cst(m, content(key)) == 0
+//@   ensures [deleted] old(cst(m, content(key))) != 0 ==> r0 == nil && cst(m, content(key)) == 1
+//@   ensures [other-keys-untouched] forall k Bytes :: k != old(content(key)) ==> cst(m, k) == old(cst(m, k)) && (old(cst(m, k)) != 0 ==> cvl(m, k) === old(cvl(m, k)))
+
+//@ func (*MemStore).DeleteIfExists
+//@   props C14 C17 C01
+//@   requires [ri] memRI(m)
+//@   ensures [ri-kept] memRI(m)
+//@   ensures [absent] old(cst(m, content(key))) == 0 ==> r0 == nil && cst(m, content(key)) == 0
+//@   ensures [deleted] old(cst(m, content(key))) != 0 ==> r0 == nil && cst(m, content(key)) == 1
+//@   ensures [other-keys-untouched] forall k Bytes :: k != old(content(key)) ==> cst(m, k) == old(cst(m, k)) && (old(cst(m, k)) != 0 ==> cvl(m, k) === old(cvl(m, k)))
+
 //@ func (*MemStore).Tombstone
 //@   props C14
 //@   replay memstore_ops
